@@ -463,6 +463,8 @@ def replay_groups(payload):
         conc2 = Conc(inst, rng)
         df2, sn2 = conc2.frame(rows, decl, rng)
         lap("frames")
+        from ..frames import df_snapshot
+        snap_df, snap_df2 = df_snapshot(df), df_snapshot(df2)
 
         def fail(api, clause, feats, rec, entries, dags, obs, exp, detail=None):
             sig = (api, clause, json.dumps(feats, sort_keys=True))
@@ -644,5 +646,10 @@ def replay_groups(payload):
                             other = next(x for x in g["dags"] if x["key"] == k2)
                             fail(tname + ".score", "markov_equivalence", {"type": t["t"], "unobserved_child_state": any_unobs_child},
                                  rec, entries, [d, other], by_key[d["key"]], by_key[k2], {"dag_a": d["edges"], "dag_b": other["edges"]})
+            # ---- C16: scoring never changes the data it was given
+            tick("data_unchanged")
+            if df_snapshot(df) != snap_df or df_snapshot(df2) != snap_df2:
+                fail(tname + ".local_score", "data_argument_changed", {"type": t["t"]}, rec, entries[:1], [], None, "the data frame as passed in")
+                snap_df, snap_df2 = df_snapshot(df), df_snapshot(df2)
     return {"n": ntraces, "calls": calls[0], "checks": checks, "fails": fails, "timing": {k: round(v, 1) for k, v in tim.items()},
             "kinds": {k: sum(1 for g in payload["groups"] if g["inst"]["kind"] == k) for k in ("universe", "data")}}
